@@ -25,6 +25,7 @@ type svcPkg struct {
 	Methods     []stubMethod
 	Auther      []stubMethod
 	Types       []string
+	Makers      []string // Make<Error>(err error) *goa.ServiceError constructors of the service package
 	HasHTTP     bool
 	HasGRPC     bool
 	GRPCReg     string            // name of the pb.Register<Svc>Server function
@@ -135,6 +136,9 @@ func scanServices(r *Run) ([]*svcPkg, error) {
 			sp.Imports[name] = p
 		}
 		for _, d := range f.Decls {
+			if fd, isFunc := d.(*ast.FuncDecl); isFunc && fd.Recv == nil && strings.HasPrefix(fd.Name.Name, "Make") && fd.Type.Params != nil && len(fd.Type.Params.List) == 1 && fd.Type.Results != nil && len(fd.Type.Results.List) == 1 {
+				sp.Makers = append(sp.Makers, fd.Name.Name)
+			}
 			gd, ok := d.(*ast.GenDecl)
 			if !ok {
 				continue
@@ -266,6 +270,10 @@ func (s *Session) WriteGlue(r *Run) error {
 		b.WriteString("\t\tTypes: map[string]reflect.Type{\n")
 		for _, t := range sp.Types {
 			fmt.Fprintf(&b, "\t\t\t%q: reflect.TypeOf((*%s.%s)(nil)).Elem(),\n", t, sp.Alias, t)
+		}
+		b.WriteString("\t\t},\n\t\tMakers: map[string]any{\n")
+		for _, mk := range sp.Makers {
+			fmt.Fprintf(&b, "\t\t\t%q: %s.%s,\n", mk, sp.Alias, mk)
 		}
 		b.WriteString("\t\t},\n\t})\n")
 	}
